@@ -4,21 +4,32 @@ C04 — reads inside the write transaction and `NextSequence` on nested buckets 
 import Bolt.Props.C04BktOps
 import Bolt.Lemmas.BktGet
 namespace Bolt.C04Bkt
-open Bolt Bolt.BTree Bolt.Bkt
+open Bolt Bolt.BTree Bolt.Bkt Bolt.Bkt.BktOpsL Bolt.Bkt.BktGetL
 
 /-- **`Bucket.Get` reads the transaction's own state**: it returns exactly what the reference
     model returns on the content `absTop` (nil for a missing key and for a nested bucket) -/
 theorem get_refines (fu : Nat) (orig cur : Bk) (p : List Bytes) (k : Bytes) (b : Bk)
     (hw : WF fu orig cur) (hb : bkAt p cur = some b) :
     apiGet (absTop fu orig cur) (apiPath p) k = .ok (getAt fu k b) := by
-  sorry
+  obtain ⟨_, hc⟩ := hw
+  obtain ⟨f, hfu, hcb, hba, _, _, _, _⟩ := frame fu orig cur p b hc hb
+  unfold apiPath
+  rw [getAt_local orig fu f p b k hcb (by omega)]
+  exact apiGet_abs (subV orig f p b.opened) (subV_isBkt _ _ _ _) _ p b.seq (flatten b.tree) k hba
 
 /-- `Bucket.NextSequence` -/
 theorem nextSeq_refines (fu : Nat) (orig cur : Bk) (p : List Bytes) (b : Bk)
     (hw : WF fu orig cur) (hb : bkAt p cur = some b) :
     ∃ cur', modifyBk nextSeqAt p cur = some cur' ∧ WF fu orig cur' ∧
       apiNextSequence (absTop fu orig cur) (apiPath p) = .ok (absTop fu orig cur', (b.seq + 1) % 2^64) := by
-  sorry
+  obtain ⟨ho, hc⟩ := hw
+  obtain ⟨f, hfu, hcb, hba, hmod, _, _, _⟩ := frame fu orig cur p b hc hb
+  obtain ⟨b', e, hcb', hseq, hents⟩ := setSeq_local orig f p b ((b.seq + 1) % 2^64) hcb
+  obtain ⟨cur', hm, hc', _, habs⟩ := hmod nextSeqAt b' e hcb'
+  refine ⟨cur', hm, ⟨ho, hc'⟩, ?_⟩
+  unfold apiNextSequence apiPath
+  rw [hba, habs, hseq, hents]
+  rfl
 
 /-- read-your-writes: after a `Put` (not refused over a nested bucket), `Get` of that key
     returns the value just written -/
@@ -28,6 +39,21 @@ theorem get_after_put (fu : Nat) (orig cur cur' : Bk) (p : List Bytes) (k v : By
     (hnb : isBucketAt (flatten b.tree) k = false)
     (hp : modifyBk (putAt fu k v) p cur = some cur') (hb' : bkAt p cur' = some b') :
     getAt fu k b' = some v := by
-  sorry
+  have _ := hkl
+  have _ := hvl
+  obtain ⟨_, hc⟩ := hw
+  obtain ⟨f, hfu, hcb, _, _, _, _, _⟩ := frame fu orig cur p b hc hb
+  obtain ⟨c1, _, _, c4, _, _, _⟩ := (curOk_succ ..).mp hcb
+  have hdf : depth b.tree ≤ fu := by omega
+  obtain ⟨t', e, hin, hd, hfl⟩ := OpsL.putT_ok fu b.tree k v c1 hk hdf
+  have hg : putAt fu k v b = some (b.setTree t') := by unfold putAt; rw [e]; rfl
+  obtain ⟨cur'', hm, hb''⟩ := modifyBk_some (putAt fu k v) p cur b _ hb hg
+  rw [hp] at hm
+  cases hm
+  rw [hb'] at hb''
+  cases hb''
+  rw [getAt_spec fu k _ (by rw [setTree_tree]; exact hin) (by rw [setTree_tree, hd]; exact hdf),
+    setTree_tree, hfl]
+  exact specGet_specPut _ k v hnb
 
 end Bolt.C04Bkt
